@@ -52,6 +52,25 @@ def log_from_full(sim, nodes):
     return log
 
 
+def _relabelled(scn, fxns, off):
+    """the same scenario on a graph whose labels are shifted by -off (off=1: the labels are 0..n-1, node 0 is falsy)"""
+    import networkx as nx
+    tt, rt, jt, js = fxns
+    G0 = build(scn)
+    G = nx.relabel_nodes(G0, {u: u - off for u in G0.nodes()}, copy=True)
+
+    def tt2(u, v, r):
+        return tt(u + off, v + off, r)
+
+    def rt2(u):
+        return rt(u + off)
+
+    def jt2(node, nbrs):
+        d, r = jt(node + off, [v + off for v in nbrs])
+        return {v - off: x for v, x in d.items()}, r
+    return G, tt2, rt2, jt2
+
+
 def run_all(scn, reflog, EoN):
     probs = []
     n = scn["n"]
@@ -62,12 +81,26 @@ def run_all(scn, reflog, EoN):
     tmin, tmax = float(scn["tmin"]) - sh, float(scn["tmax"]) - sh
     want = [[float(e[0]) - sh, e[1], e[2], e[3]] for e in reflog]
     kw = dict(initial_infecteds=list(I0), tmin=tmin, tmax=tmax)
-    for iface in ("separate", "joint", "joint-sparse"):
+    for iface in ("separate", "joint", "joint-sparse", "separate,labels-from-0", "joint,labels-from-0"):
         tt, rt, jt, js = make_fxns(scn)
         fk = dict(trans_time_fxn=tt, rec_time_fxn=rt) if iface == "separate" else dict(trans_and_rec_time_fxn=jt if iface == "joint" else js)
         name = "fast_nonMarkov_SIS(%s)" % iface
         try:
-            sim = EoN.fast_nonMarkov_SIS(G, return_full_data=True, **fk, **kw)
+            if iface.endswith("labels-from-0"):
+                G0, tt2, rt2, jt2 = _relabelled(scn, (tt, rt, jt, js), 1)
+                fk = dict(trans_time_fxn=tt2, rec_time_fxn=rt2) if iface.startswith("separate") else dict(trans_and_rec_time_fxn=jt2)
+                kw0 = dict(kw, initial_infecteds=[u - 1 for u in I0])
+                sim0 = EoN.fast_nonMarkov_SIS(G0, return_full_data=True, **fk, **kw0)
+
+                class _Shift(object):
+                    def node_history(self, u):
+                        return sim0.node_history(u - 1)
+
+                    def transmissions(self):
+                        return [(t, (a + 1 if a is not None else None), b + 1) for (t, a, b) in sim0.transmissions()]
+                sim = _Shift()
+            else:
+                sim = EoN.fast_nonMarkov_SIS(G, return_full_data=True, **fk, **kw)
             got = log_from_full(sim, nodes)
             ini = tuple(sim.node_history(u)[1][0] for u in nodes)
             tr = [tuple(x) for x in sim.transmissions()]
